@@ -276,6 +276,11 @@ def run(c, chk):
     table_growth(c, chk, 'R2.11')
     if not isinstance(chk, report.SubCheck):
         from . import c13 as _c13
+        from . import c11 as _c11
+        chk.rule('R2.13', 'the name lookup the parser calls never goes on from a path step that did not resolve (rule R11.7 of C11): a NULL section is not dereferenced under any flag')
+        sub = report.SubCheck(chk, 'R2.13', 'C11', only=('R11.7',))
+        _c11.run(c, sub)
+        sub.done('path steps')
         chk.rule('R2.12', 'every write into the include stack is preceded by the depth test (rule R13.2 of C13)')
         sub = report.SubCheck(chk, 'R2.12', 'C13', only=('R13.2',))
         _c13.run(c, sub)
